@@ -7,7 +7,13 @@ use std::sync::{Arc, Mutex};
 
 use mcore::{enumr, guarded, hex, unhex, Args, Report, Violation};
 use memchr::arch::all::memchr as swar;
+#[cfg(feature = "neon")]
+use memchr::arch::aarch64::neon::memchr as neon;
+#[cfg(feature = "simd128")]
+use memchr::arch::wasm32::simd128::memchr as simd128;
+#[cfg(feature = "x86")]
 use memchr::arch::x86_64::avx2::memchr as avx2;
+#[cfg(feature = "x86")]
 use memchr::arch::x86_64::sse2::memchr as sse2;
 use serde_json::{json, Map, Value};
 use stateright::{Checker, Model, Property};
@@ -47,13 +53,34 @@ where
     }
 }
 
-pub const KINDS: [&str; 12] = [
+pub const KINDS: [&str; 18] = [
     "top1", "top2", "top3", "swar1", "swar2", "swar3", "sse2-1", "sse2-2", "sse2-3", "avx2-1", "avx2-2", "avx2-3",
+    "neon-1", "neon-2", "neon-3", "simd128-1", "simd128-2", "simd128-3",
 ];
+
+/// The kinds available in this build configuration.
+pub fn default_kinds() -> Vec<&'static str> {
+    let mut v = vec!["top1", "top2", "top3", "swar1", "swar2", "swar3"];
+    #[cfg(feature = "x86")]
+    {
+        if sse2::One::is_available() {
+            v.extend(["sse2-1", "sse2-2", "sse2-3"]);
+        }
+        if avx2::One::is_available() {
+            v.extend(["avx2-1", "avx2-2", "avx2-3"]);
+        }
+    }
+    #[cfg(feature = "neon")]
+    v.extend(["neon-1", "neon-2", "neon-3"]);
+    #[cfg(feature = "simd128")]
+    v.extend(["simd128-1", "simd128-2", "simd128-3"]);
+    v
+}
 
 fn kind_k(kind: &str) -> usize {
     (kind.as_bytes()[kind.len() - 1] - b'0') as usize
 }
+
 
 fn leak<T>(t: T) -> &'static T {
     Box::leak(Box::new(t))
@@ -68,13 +95,31 @@ fn make(kind: &str, nd: [u8; 3], hay: &'static [u8]) -> Box<dyn BIter> {
         "swar1" => Box::new(W(leak(swar::One::new(nd[0])).iter(hay))),
         "swar2" => Box::new(W(leak(swar::Two::new(nd[0], nd[1])).iter(hay))),
         "swar3" => Box::new(W(leak(swar::Three::new(nd[0], nd[1], nd[2])).iter(hay))),
+        #[cfg(feature = "x86")]
         "sse2-1" => Box::new(W(leak(sse2::One::new(nd[0]).unwrap()).iter(hay))),
+        #[cfg(feature = "x86")]
         "sse2-2" => Box::new(W(leak(sse2::Two::new(nd[0], nd[1]).unwrap()).iter(hay))),
+        #[cfg(feature = "x86")]
         "sse2-3" => Box::new(W(leak(sse2::Three::new(nd[0], nd[1], nd[2]).unwrap()).iter(hay))),
+        #[cfg(feature = "x86")]
         "avx2-1" => Box::new(W(leak(avx2::One::new(nd[0]).unwrap()).iter(hay))),
+        #[cfg(feature = "x86")]
         "avx2-2" => Box::new(W(leak(avx2::Two::new(nd[0], nd[1]).unwrap()).iter(hay))),
+        #[cfg(feature = "x86")]
         "avx2-3" => Box::new(W(leak(avx2::Three::new(nd[0], nd[1], nd[2]).unwrap()).iter(hay))),
-        _ => panic!("kind"),
+        #[cfg(feature = "neon")]
+        "neon-1" => Box::new(W(leak(neon::One::new(nd[0]).unwrap()).iter(hay))),
+        #[cfg(feature = "neon")]
+        "neon-2" => Box::new(W(leak(neon::Two::new(nd[0], nd[1]).unwrap()).iter(hay))),
+        #[cfg(feature = "neon")]
+        "neon-3" => Box::new(W(leak(neon::Three::new(nd[0], nd[1], nd[2]).unwrap()).iter(hay))),
+        #[cfg(feature = "simd128")]
+        "simd128-1" => Box::new(W(leak(simd128::One::new(nd[0]).unwrap()).iter(hay))),
+        #[cfg(feature = "simd128")]
+        "simd128-2" => Box::new(W(leak(simd128::Two::new(nd[0], nd[1]).unwrap()).iter(hay))),
+        #[cfg(feature = "simd128")]
+        "simd128-3" => Box::new(W(leak(simd128::Three::new(nd[0], nd[1], nd[2]).unwrap()).iter(hay))),
+        _ => panic!("iterator kind {} is not available in this build configuration", kind),
     }
 }
 
@@ -368,7 +413,7 @@ fn build_cases(kinds: &[&'static str], l1: usize, l23: usize, long: bool, aligns
 
 pub fn run(args: &Args, thorough: bool, total: &mut Report, bounds: &mut Map<String, Value>, exhaustive: &mut bool) {
     let kinds: Vec<&'static str> = match args.get("kinds") {
-        None => KINDS.to_vec(),
+        None => default_kinds(),
         Some(s) => s.split(',').map(|x| *KINDS.iter().find(|k| **k == x).expect("kind")).collect(),
     };
     let l1 = args.num("l1", if thorough { 12 } else { 10 }) as usize;
